@@ -174,7 +174,7 @@ def check(run: lib.Run, audit: dict) -> int:
                        "the recording checker answers from a table keyed by the triple (deterministic within a decision)"]
     if not audit["ok"]:
         raise lib.CheckError(f"Lean build/audit failed at {audit['stage']}: {audit.get('log') or audit.get('forbidden') or audit.get('bad_axioms')}")
-    run_cases(run, audit)
+    run_cases(run, audit, scale=run.boost)
     check_isolation(run)
     violations = []
     if run.disagreements and not run.spec_failures:
